@@ -64,6 +64,80 @@ def _order_of_names(e: ast.expr):
     return _order_source(e, leaf, True)
 
 
+def _draw_state(gd) -> set:
+    """the attributes of the database that generate_draws stores (self.X = ..., self.X[k] = ...): what it leaves behind for the next call"""
+    out = set()
+    for n in walk_no_nested(gd.node):
+        for t in (n.targets if isinstance(n, ast.Assign) else [n.target] if isinstance(n, (ast.AugAssign, ast.AnnAssign)) else []):
+            while isinstance(t, ast.Subscript):
+                t = t.value
+            if isinstance(t, ast.Attribute) and isinstance(t.value, ast.Name) and t.value.id == 'self':
+                out.add(t.attr)
+    return out
+
+
+def _reads_draw_state(guard: str, D, gd) -> bool:
+    """the condition (text of an expression) reads, on the database, an attribute that generate_draws stores, or calls a method of
+    the database whose body reads one"""
+    state = _draw_state(gd)
+    try:
+        e = ast.parse(guard, mode='eval').body
+    except SyntaxError:
+        return False
+    called = {id(c.func) for c in ast.walk(e) if isinstance(c, ast.Call)}
+    for a in ast.walk(e):
+        if not (isinstance(a, ast.Attribute) and unparse(a.value) in ('self.database', 'database')):
+            continue
+        if a.attr in state and id(a) not in called:
+            return True
+        m = D.methods.get(a.attr)
+        if m is not None and id(a) in called and any(isinstance(x, ast.Attribute) and isinstance(x.value, ast.Name) and x.value.id == 'self' and x.attr in state
+                                                     and isinstance(x.ctx, ast.Load) for x in walk_no_nested(m.node)):
+            return True
+    return False
+
+
+def _sorted_in_place(func_node: ast.AST, e: ast.expr, use: ast.AST):
+    """`x = <list(...)>` followed, in the same block and before the statement of the use, by `x.sort()` and nothing else that touches x:
+    the value of x at the use is sorted(<list(...)>).  Returns that expression, or None."""
+    if not isinstance(e, ast.Name):
+        return None
+    occ = [n for n in walk_no_nested(func_node) if isinstance(n, ast.Name) and n.id == e.id]
+    if sum(isinstance(n.ctx, ast.Store) for n in occ) != 1 or any(isinstance(n.ctx, ast.Del) for n in occ):
+        return None
+    for body in _bodies_of(func_node):
+        for k, st in enumerate(body):
+            if isinstance(st, ast.Assign) and len(st.targets) == 1 and isinstance(st.targets[0], ast.Name) and st.targets[0].id == e.id:
+                if not (isinstance(st.value, ast.Call) and isinstance(st.value.func, ast.Name) and st.value.func.id == 'list' and len(st.value.args) == 1 and not st.value.keywords):
+                    return None  # (a fresh list: nobody else sees the sort)
+                srt = [j for j in range(k + 1, len(body)) if isinstance(body[j], ast.Expr) and isinstance(body[j].value, ast.Call) and unparse(body[j].value) == f'{e.id}.sort()']
+                if len(srt) != 1:
+                    return None
+                # every other mention of x comes after the sort, in the same block (or below it)
+                rest = {id(n) for j in range(srt[0] + 1, len(body)) for n in ast.walk(body[j])}
+                own = {id(n) for n in ast.walk(body[srt[0]])} | {id(st.targets[0])}
+                if any(id(n) not in rest and id(n) not in own for n in occ) or id(use) not in rest:
+                    return None
+                # ... and only reads it as a whole (no method called on it, no item stored)
+                for j in range(srt[0] + 1, len(body)):
+                    for n in ast.walk(body[j]):
+                        if isinstance(n, (ast.Attribute, ast.Subscript)) and isinstance(n.value, ast.Name) and n.value.id == e.id:
+                            return None
+                return ast.Call(func=ast.Name(id='sorted', ctx=ast.Load()), args=[st.value], keywords=[])
+    return None
+
+
+def _bodies_of(node: ast.AST):
+    for n in walk_no_nested(node):
+        for field in ('body', 'orelse', 'finalbody'):
+            v = getattr(n, field, None)
+            if isinstance(v, list) and v and isinstance(v[0], ast.stmt):
+                yield v
+        if isinstance(n, ast.Try):
+            for h in n.handlers:
+                yield h.body
+
+
 def run(ctx: Ctx) -> None:
     ctx.positive_table = list(POSITIVE)
     prog = ctx.prog
@@ -94,7 +168,8 @@ def run(ctx: Ctx) -> None:
         if plain:
             t_ = inline_locals(f.node, byname[types_p])
             m = re.fullmatch(r'(.*)\.draw_types\(\)', unparse(t_))
-            order = _order_of_names(inline_locals(f.node, byname[names_p]))
+            names_ = _sorted_in_place(f.node, byname[names_p], c) or byname[names_p]
+            order = _order_of_names(inline_locals(f.node, names_))
             # draws.names is sorted(draws.expressions), and draw_types() has the keys of draws.expressions: sorted(<either>) is draws.names
             if m is not None and order is not None and order[0] in ('names', 'sorted') and order[1] == m.group(1):
                 ok = True
@@ -117,8 +192,10 @@ def run(ctx: Ctx) -> None:
         present = {f'{d_} is not None' for d_ in ('self.database', 'database')} | {f'None is not {d_}' for d_ in ('self.database', 'database')} | \
             {f'not {d_} is None' for d_ in ('self.database', 'database')} | {f'{d_} != None' for d_ in ('self.database', 'database')} | {'self.database', 'database'}
         extra = [g_ for g_ in guards if g_ != 'self.requires_draws' and g_ not in present]
-        # a further condition that consults the database (a table it already holds) makes the generation depend on what another formula left there
-        reuse = [g_ for g_ in extra if re.search(r'\b(self\.)?database\.\w+', g_)]
+        # a further condition that consults the STATE the database keeps about its draws (what generate_draws itself stores: the table, the
+        # types; read directly or through a method of the database that reads it) makes the generation depend on what another formula
+        # left there; a condition on anything else of the database (a method object, the data) is not understood: open
+        reuse = [g_ for g_ in extra if _reads_draw_state(g_, D, gd)]
         okg = 'self.requires_draws' in guards and not extra
         ctx.add('C10.R1', 'IdManager.prepare:regenerates', okg if (okg or ('self.requires_draws' in guards and reuse)) else None, (prep_.file, c.lineno),
                 'the draws are generated every time the ids of a formula with draws are prepared' if okg else
@@ -217,17 +294,46 @@ return self.theDraws
             why = f'shape not recognised - expected: the columns of the draw table laid out over {names_p} (found {seqv}, length {lenv})'
     if bg is None:
         # which sequence numbers the slots of the list that becomes the table?
+        # (the list from which self.theDraws is built: a list filled for some other purpose - a lookup prepared beforehand - says nothing about the columns)
+        table_src = {x.id for a_ in walk_no_nested(gd.node) if isinstance(a_, ast.Assign) and unparse(a_.targets[0]) == 'self.theDraws'
+                     for x in ast.walk(inline_locals(gd.node, a_.value)) if isinstance(x, ast.Name)}
         for lp_ in [x for x in walk_no_nested(gd.node) if isinstance(x, ast.For) and isinstance(x.iter, ast.Call) and call_name(x.iter) == 'enumerate' and x.iter.args]:
             src_n = inline_locals(gd.node, lp_.iter.args[0])
             src_ = unparse(src_n)
-            fills = any(isinstance(a_, ast.Assign) and isinstance(a_.targets[0], ast.Subscript) and isinstance(lp_.target, ast.Tuple) and unparse(a_.targets[0].slice) == unparse(lp_.target.elts[0]) for a_ in ast.walk(lp_))
+            fills = any(isinstance(a_, ast.Assign) and isinstance(a_.targets[0], ast.Subscript) and isinstance(lp_.target, ast.Tuple) and unparse(a_.targets[0].slice) == unparse(lp_.target.elts[0])
+                        and isinstance(a_.targets[0].value, ast.Name) and a_.targets[0].value.id in table_src for a_ in ast.walk(lp_))
             # the text of the source may well mention the dictionary of types (to look the type of each name up): what counts is what it runs over
             if fills and _order_source(src_n, leaf_) == 'dict':
                 ok = False
                 why = f'slot i of the table is filled for the i-th entry of {src_} (the order of the dictionary of types, i.e. of appearance in the formulas): column i must belong to {names_p}[i], the sorted names by which the expressions address their series'
-    if ok is False and any(isinstance(x, ast.Name) and isinstance(x.ctx, ast.Store) and x.id in (types_p, names_p) for x in ast.walk(gd.node)):
-        ok = None  # a parameter is rebound inside: its order there is not the one it arrived with
-        why = 'shape not recognised - ' + why
+    if ok is not None and any(isinstance(x, ast.Name) and isinstance(x.ctx, ast.Store) and x.id in (types_p, names_p, n_p) for x in ast.walk(gd.node)):
+        why = 'shape not recognised - a parameter of generate_draws is re-bound inside' + (f' - {why}' if ok is False else '')
+        ok = None  # its order (value) there is not the one it arrived with
+    if ok and bg is not None:
+        # the statements that the pattern lets pass (`___`) must leave alone what the pattern has matched: the variables it bound,
+        # the list of columns, the table
+        allowed = {'_L': 1, '_I': 1, '_V': 1, '_NAME': 1, '_T': 1, '_G': 2}
+        stores: dict = {}
+        comp_vars = {id(y) for x in walk_no_nested(gd.node) if isinstance(x, ast.comprehension) for y in ast.walk(x.target)}  # (a scope of their own)
+        for x in walk_no_nested(gd.node):
+            if isinstance(x, ast.Name) and isinstance(x.ctx, (ast.Store, ast.Del)) and id(x) not in comp_vars:
+                stores[x.id] = stores.get(x.id, 0) + 1
+        over = [v for k, v in bg.items() if k in allowed and isinstance(v, str) and stores.get(v, 0) > allowed[k]]
+        lst = bg.get('_L')
+        touched = [unparse(x) for x in walk_no_nested(gd.node) if isinstance(x, ast.Attribute) and isinstance(x.value, ast.Name) and x.value.id == lst]
+        n_items = sum(1 for x in walk_no_nested(gd.node) if isinstance(x, ast.Subscript) and isinstance(x.ctx, (ast.Store, ast.Del)) and isinstance(x.value, ast.Name) and x.value.id == lst)
+        n_table = 0
+        for x in walk_no_nested(gd.node):
+            for t in (x.targets if isinstance(x, (ast.Assign, ast.Delete)) else [x.target] if isinstance(x, (ast.AugAssign, ast.AnnAssign)) else []):
+                while isinstance(t, ast.Subscript):
+                    t = t.value
+                n_table += unparse(t) == 'self.theDraws'
+        t_methods = [unparse(x) for x in walk_no_nested(gd.node) if isinstance(x, ast.Call) and isinstance(x.func, ast.Attribute) and unparse(x.func.value) == 'self.theDraws']
+        if over or touched or n_items != 1 or n_table != 2 or t_methods:
+            ok = None
+            why = 'shape not recognised - between the recognised statements ' + (
+                f'{", ".join(over)} is assigned again' if over else f'the list of columns is used through {touched[0]}' if touched else 'the list of columns is stored into more than once' if n_items != 1
+                else 'the table self.theDraws is stored once more' if n_table != 2 else f'the table is changed through {t_methods[0]}')
     ctx.add('C10.R1', 'Database.generate_draws:columns', ok, gd, 'column i holds the series of the i-th name, generated with the generator of that name\'s declared type (native, else user, else error); the variable axis is moved last' if ok else why, 'columns', positive=ok is False)
     from .c01 import leaf_tables
 
@@ -272,6 +378,13 @@ return self.theDraws
                     full = f'{mod_}.{last}'
                 else:
                     full = d
+                if full.startswith(NP) and full.count('.') == 2 and last == 'seed':
+                    # the stream BIOGEME has seeded is seeded again where the draws are made: from the clock / the system when no seed is given
+                    fresh_seed = (not c.args and not c.keywords) or (len(c.args) == 1 and not c.keywords and isinstance(c.args[0], ast.Constant) and c.args[0].value is None)
+                    ctx.add('C10.R2', f'{modname}.{fn.qualname}:{d}', False if fresh_seed else None, (fn.file, c.lineno),
+                            f'{unparse(c)} re-seeds the global stream from the system where the draws are generated: the seed set by BIOGEME no longer determines the draws of {fn.qualname}' if fresh_seed
+                            else f'shape not recognised - expected: the global stream is seeded by BIOGEME only ({unparse(c)} in {fn.qualname})', d, positive=fresh_seed)
+                    continue
                 if full.startswith(NP) and full.count('.') == 2 and last in LEGACY:
                     n_sources += 1
                     continue
